@@ -12,14 +12,14 @@ TREE = json.load(open(os.path.join(SPEC, "tree_model.json")))
 
 
 def cfg(writers, closers=None, qsize=2, until=True, serve="pre", reads=0, maxfaults=0,
-        maxpolls=10, nsenders=None, fixclosed=None, fixdrain=None, pcancel=False):
+        maxpolls=10, nsenders=None, fixclosed=None, fixdrain=None, pcancel=False, swallow=False):
     """writers: {"W1": [("W1","bg"), ...]}; closers: {"C1": "e1"}"""
     closers = closers or {}
     nops = sum(sum(int(o[2]) if len(o) > 2 else 1 for o in v) for v in writers.values())
     return {
         "writers": {w: [list(o) for o in ops] for w, ops in writers.items()},
         "closers": dict(closers), "qsize": qsize, "until": until, "serve": serve, "reads": reads,
-        "maxfaults": maxfaults, "maxpolls": maxpolls, "pcancel": pcancel,
+        "maxfaults": maxfaults, "maxpolls": maxpolls, "pcancel": pcancel, "swallow": swallow,
         "nsenders": nsenders if nsenders is not None else nops + 1,
         "fixclosed": TREE["FixClosed"] if fixclosed is None else fixclosed,
         "fixdrain": TREE["FixDrain"] if fixdrain is None else fixdrain,
@@ -46,7 +46,7 @@ def tla_consts(c, maxpolls=None):
         "QSize": c["qsize"], "Until": c["until"],
         "MaxPolls": c["maxpolls"] if maxpolls is None else maxpolls,
         "MaxFaults": c["maxfaults"], "Serve": c["serve"], "Reads": c["reads"],
-        "FixClosed": c["fixclosed"], "FixDrain": c["fixdrain"], "PCancel": c.get("pcancel", False),
+        "FixClosed": c["fixclosed"], "FixDrain": c["fixdrain"], "PCancel": c.get("pcancel", False), "Swallow": c.get("swallow", False),
     }
 
 
@@ -73,7 +73,7 @@ def go_case(c, cid, rnd, schedule=None, rand=None, sizes=None, props=None, notra
         "closers": [{"name": k, "arg": v} for k, v in sorted(c["closers"].items())],
         "serve": c["serve"], "reads": c["reads"], "max_faults": c["maxfaults"],
         "senders": senders(c), "seed": rnd.randrange(1, 1 << 30), "max_steps": max_steps,
-        "no_trace": notrace, "codec": codec,
+        "no_trace": notrace, "codec": codec, "swallow": c.get("swallow", False),
     }
     if schedule is not None:
         case["schedule"] = schedule
